@@ -12,7 +12,7 @@
     External (hypotheses, validated at run time by tools/props/C02.py on the real code):
       the equation of state  pHighT eHighT wHighT csqLowT ... : R -> R  (fields of [env]);
       scipy: the point returned by root / brentq is a zero of the residual. *)
-From Coq Require Import Reals Lra Psatz.
+From Coq Require Import Reals Lra Psatz List.
 From WG Require Import Lib.NumpySem Lib.HydroMatch Lib.HydroMatchTemplate.
 From GenC02 Require Import HydroGen.
 Local Open Scope R_scope.
@@ -409,6 +409,22 @@ Qed.
 End TemplateClass.
 
 
+(** ** roles of the tolerances in EVERY root_scalar / root call of the two classes (facts
+    [tol_facts] regenerated from the source): the bracket solvers are asked for the accuracy
+    atol + rtol |x| -- self.atol is the absolute and self.rtol the relative tolerance; the
+    flux tolerance of the direct validation is derived from exactly this accuracy *)
+Theorem tolerance_roles f rt at_ x :
+  In f tol_facts -> roles_ok f = true /\
+  (tf_kind f = RootScalar -> requested_accuracy f rt at_ x = at_ + rt * Rabs x).
+Proof.
+  intro H.
+  assert (A : forallb roles_ok tol_facts = true) by (vm_compute; reflexivity).
+  rewrite forallb_forall in A. specialize (A f H).
+  split; [exact A|]. intro K. apply roles_ok_meaning; assumption.
+Qed.
+Example tolerance_facts_nonempty : tol_facts <> nil.
+Proof. discriminate. Qed.
+
 (** the hypotheses are satisfiable: a bag-like equation of state with an exact matching *)
 Example hypotheses_satisfiable :
   exists (e : env) vp vm Tp Tm,
@@ -559,3 +575,9 @@ Theorem C02_template_boundary_constants : forall (e : t_env), 0 < t_mu e ->
   (t_energy_conserved e vp vm Tp Tm -> c1 = - (t_wLow e Tm * gammaSq vm * vm)).
 Proof. exact template_boundary_constants. Qed.
 Print Assumptions C02_template_boundary_constants.
+
+Theorem C02_tolerance_roles : forall f rt at_ x,
+  In f tol_facts -> roles_ok f = true /\
+  (tf_kind f = RootScalar -> requested_accuracy f rt at_ x = at_ + rt * Rabs x).
+Proof. exact tolerance_roles. Qed.
+Print Assumptions C02_tolerance_roles.
